@@ -59,8 +59,9 @@ def run(ctx):
     if sub is not None:
         try:
             driver_symbolic(sub)
-        except AnalysisError as e:
-            sub.undecided('CFG-9', 'symbolic rules over the driver', loc(fi), 'layout not recognised: %s' % e)
+        except (AnalysisError, KeyError, IndexError, AttributeError, ValueError) as e:
+            # the symbolic rules read one layout of the driver (and of the SED class's declared axes): anything they cannot find is an unrecognised layout
+            sub.undecided('CFG-9', 'symbolic rules over the driver', loc(fi), 'layout not recognised: %s %s' % (type(e).__name__, e))
     cube_rules(ctx)
     # the rows hold each model's flux as the file states it: the unit strings of the SED files are read by parse_unit_safe
     from . import c15
